@@ -399,6 +399,17 @@ class Interp:
             return tuple(self.expr(x, env) for x in e.elts)
         if isinstance(e, ast.Dict):
             return {self.expr(k, env): self.expr(v, env) for k, v in zip(e.keys, e.values)}
+        if isinstance(e, (ast.ListComp, ast.GeneratorExp, ast.SetComp)):
+            out = []
+            self._comprehension(e.elt, e.generators, 0, dict(env), out)
+            return out  # evaluated eagerly, in iteration order (a set comprehension keeps the order of first appearance)
+        if isinstance(e, ast.Lambda):
+            return _Lambda(e, env)
+        if isinstance(e, ast.Subscript) and not isinstance(e.slice, ast.Slice):
+            base, idx = self.expr(e.value, env), self.expr(e.slice, env)
+            if isinstance(base, (list, tuple, dict)) and not z3.is_expr(idx):
+                return base[idx]
+            raise Unsupported("subscript")
         if isinstance(e, ast.Call):
             f = self.expr(e.func, env)
             args = [self.expr(a, env) for a in e.args]
@@ -406,7 +417,36 @@ class Interp:
             return self.call(f, args, kwargs)
         raise Unsupported(type(e).__name__)
 
+    def _comprehension(self, elt, gens, gi, env, out):
+        if gi == len(gens):
+            out.append(self.expr(elt, env))
+            return
+        g = gens[gi]
+        if g.is_async:
+            raise Unsupported("async comprehension")
+        it = self.expr(g.iter, env)
+        if not isinstance(it, (list, tuple)):
+            it = list(it)
+        for x in it:
+            self.assign(g.target, x, env)
+            if all(self.truth(self.expr(c, env)) for c in g.ifs):
+                self._comprehension(elt, gens, gi + 1, env, out)
+
     def call(self, f, args, kwargs):
+        if isinstance(f, _Lambda):
+            a = f.node.args
+            if kwargs or a.vararg or a.kwarg or a.kwonlyargs or len(args) > len(a.args):
+                raise Unsupported("lambda call shape")
+            env = dict(f.env)
+            defaults = [None] * (len(a.args) - len(a.defaults)) + list(a.defaults)
+            for i, (arg, d) in enumerate(zip(a.args, defaults)):
+                if i < len(args):
+                    env[arg.arg] = args[i]
+                elif d is not None:
+                    env[arg.arg] = self.expr(d, f.env)
+                else:
+                    raise Unsupported("lambda call shape")
+            return self.expr(f.node.body, env)
         if getattr(f, "_model", False):
             try:
                 return f(self, *args, **kwargs)
@@ -434,6 +474,11 @@ class _Bound:
         self.obj, self.fn = obj, fn
 
 
+class _Lambda:
+    def __init__(self, node, env):
+        self.node, self.env = node, env
+
+
 class Coro(Model):
     """an `async def` call that has not been awaited yet: executed when awaited / when its task is joined"""
 
@@ -446,13 +491,48 @@ class Coro(Model):
 
 # -------------------------------------------------------------------------------------------------------------------
 # generic numeric models
+def _extreme(ip, args, key, default, want_max):
+    """min()/max() of Python: first extreme element in iteration order; comparisons of symbolic keys fork the path"""
+    items = list(args[0]) if len(args) == 1 else list(args)
+    if not items:
+        if default is _NODEFAULT:
+            raise PyRaise(ValueError)
+        return default
+    best = items[0]
+    kb = ip.call(key, [best], {}) if key is not None else best
+    for x in items[1:]:
+        kx = ip.call(key, [x], {}) if key is not None else x
+        better = ip.truth(ip.cmp(ast.Gt() if want_max else ast.Lt(), kx, kb))
+        if better:
+            best, kb = x, kx
+    return best
+
+
+_NODEFAULT = object()
+
+
 @model
-def m_max(ip, a, b):
-    if not z3.is_expr(a) and not z3.is_expr(b):
-        return max(a, b)
-    a2 = z3.RealVal(a) if not z3.is_expr(a) else Interp._num(a)
-    b2 = z3.RealVal(b) if not z3.is_expr(b) else Interp._num(b)
-    return z3.If(a2 >= b2, a2, b2)
+def m_max(ip, *args, key=None, default=_NODEFAULT):
+    if len(args) == 2 and key is None:
+        a, b = args
+        if not z3.is_expr(a) and not z3.is_expr(b):
+            return max(a, b)
+        a2 = z3.RealVal(a) if not z3.is_expr(a) else Interp._num(a)
+        b2 = z3.RealVal(b) if not z3.is_expr(b) else Interp._num(b)
+        return z3.If(a2 >= b2, a2, b2)
+    return _extreme(ip, args, key, default, True)
+
+
+@model
+def m_min(ip, *args, key=None, default=_NODEFAULT):
+    if len(args) == 2 and key is None:
+        a, b = args
+        if not z3.is_expr(a) and not z3.is_expr(b):
+            return min(a, b)
+        a2 = z3.RealVal(a) if not z3.is_expr(a) else Interp._num(a)
+        b2 = z3.RealVal(b) if not z3.is_expr(b) else Interp._num(b)
+        return z3.If(a2 <= b2, a2, b2)
+    return _extreme(ip, args, key, default, False)
 
 
 def z_round_half_even(x):
